@@ -66,6 +66,7 @@ func c02Repeat(useShipped bool) func(t *rapid.T) {
 		var cls gen.DBClass
 		var db, db2 *database.Database
 		var path string
+		langPack, freshProc := false, false
 		if useShipped {
 			var err error
 			db, err = shipped()
@@ -75,6 +76,11 @@ func c02Repeat(useShipped bool) func(t *rapid.T) {
 			cmds, cls = db.Commands, "shipped"
 		} else {
 			cmds, cls = gen.DB(t, gen.CmdOpts{Platforms: rapid.Bool().Draw(t, "plat"), Sized: true, Long: true, Heavy: true}, []int{0, 1, 10, 6, 1})
+			if rapid.IntRange(0, 7).Draw(t, "language-pack") == 0 {
+				// every word the language stage knows is a word of the database: whatever that stage adds to
+				// a query (synonym, hint, stem) then changes the candidates and the scores
+				cmds, cls, langPack = append(cmds, gen.LanguagePack()...), "language-pack:"+cls, true
+			}
 			path = gen.WriteDB(t, cmds)
 			defer os.Remove(path)
 			var err error
@@ -148,9 +154,15 @@ func c02Repeat(useShipped bool) func(t *rapid.T) {
 				q, qcls = gen.Query(t, cmds[off:off+50], []gen.QueryClass{"vocab", "nlp", "typo", "mixed"})
 			}
 		} else {
-			q, qcls = gen.Query(t, cmds, []gen.QueryClass{"vocab", "vocab", "vocab", "nlp", "nlp", "typo", "fragment", "mixed", "long"})
+			q, qcls = gen.Query(t, cmds, []gen.QueryClass{"vocab", "vocab", "vocab", "nlp", "nlp", "typo", "fragment", "mixed", "long", "inflected"})
+			if langPack && rapid.IntRange(0, 3).Draw(t, "ask-inflected") > 0 {
+				q, qcls = gen.Query(t, cmds, []gen.QueryClass{"inflected"})
+			}
 		}
 		opt := gen.Options(t, gen.OptSpec{N: len(cmds)})
+		if langPack && rapid.IntRange(0, 3).Draw(t, "language-stage-on") > 0 {
+			opt.UseNLP = true
+		}
 		if useShipped && (opt.Limit > 200 || opt.Limit < 0) {
 			opt.Limit = 25
 		}
@@ -192,6 +204,20 @@ func c02Repeat(useShipped bool) func(t *rapid.T) {
 				if !rankEq(first, other) {
 					t.Fatalf("independently loaded copy differs for query %q options %v\n first: %s\n other: %s\n db=%v", q, optBrief(opt), rankStr(first), rankStr(other), gen.BriefDB(cmds, 12))
 				}
+			}
+		}
+		// a process that has answered thousands of other questions and one that has just started give
+		// the same answer: the very same file, query and options in a fresh child process
+		if path != "" && (langPack && rapid.Bool().Draw(t, "fresh-process") || rapid.IntRange(0, 59).Draw(t, "fresh-process-any") == 0) && !grown && !replaced && !withEmb && !strings.HasPrefix(string(cls), "in-memory") {
+			if oj, err := json.Marshal(opt); err == nil { // (options with NaN / Inf have no JSON form)
+				r := proc.Run(proc.Cmd{Helper: "c02search", Args: []string{path, q, string(oj)}, FSize: -1})
+				if r.ExitCode != 0 || r.TimedOut {
+					t.Fatalf("helper failed: %+v", r)
+				}
+				if got := strings.SplitN(r.Stdout, "\n", 2)[0]; got != rankStr(first) {
+					t.Fatalf("a fresh process answers differently from this long-running one for query %q options %v\n here:  %s\n fresh: %s\n db=%v", q, optBrief(opt), rankStr(first), got, gen.BriefDB(cmds, 12))
+				}
+				freshProc = true
 			}
 		}
 		// the older entry points, which merge and sort candidate lists of their own
@@ -246,6 +272,9 @@ func c02Repeat(useShipped bool) func(t *rapid.T) {
 		}
 		if replaced {
 			labels = append(labels, "replaced-copy")
+		}
+		if freshProc {
+			labels = append(labels, "fresh-process-compared")
 		}
 		if grown {
 			labels = append(labels, "grown-copy")
